@@ -8,7 +8,7 @@ from ..core import same, HarnessError
 ID = 'C06'
 TITLE = 'inc / exc partition a table'
 LEVEL = 'exploration'
-RULE = ('random tables (0-8 rows, cells None/int/float/NaN/str, unique id column) x conditions (1-3 keyword filters of value / list / None / NaN / '
+RULE = ('random tables (0-20 rows, cells None/int/float/NaN/str, unique id column) x conditions (1-3 keyword filters of value / list / None / NaN / '
         'compiled regex, dict filter, or one callable over named columns incl. predicates returning truthy non-bool values); '
         'non-trivial = the condition selects a non-empty proper subset, or mixes None and NaN conditions; distinct = canonical hash of the case')
 ASSUMPTIONS = ['+-inf cells are not generated (is_nan deliberately treats inf as NaN)', 'NaN is not placed inside lists of admissible values',
@@ -142,7 +142,7 @@ def run_case(case, ctx):
 
 
 def gen_case(rng):
-    n = rng.choice([0, 1, 2, 3, 4, 5, 6, 8])
+    n = rng.choice([0, 1, 2, 3, 4, 5, 6, 8, 12, 20])
     names = rng.sample(['a', 'b', 'c', 'd'], rng.randint(1, 3))
     kinds = {c: rng.choice(['nifs', 'if', 'nf', 's', 'ns', 'nifs']) for c in names}
     cols = {c: [gen.cell(rng, nan=0.15 if 'f' in kinds[c] else 0, kinds=kinds[c]) for _ in range(n)] for c in names}
